@@ -1180,6 +1180,9 @@ Proof.
   - intros a G. apply B in G. eapply NO; eauto.
 Qed.
 
+Lemma holds_obj_exists f a c : holds f a c -> obj_exists f a = true.
+Proof. intros (i & n & Ho & _ & _). unfold obj_exists. rewrite Ho, resolve_file. reflexivity. Qed.
+
 (* the first target of the loop *)
 Lemma mat_head fl f e x t f' oc :
   wf_fs f -> objs_bounded f -> materialise fl f ((e, x) :: t) = (f', oc) ->
@@ -1198,7 +1201,18 @@ Proof.
       - intros E; exists f; apply SAME. right; split; auto. intros c [(_ & d & n & X & _)|P]; [discriminate|exact P].
       - destruct (fixed_P8 fl); intros E; exists f; apply SAME; [right; split; auto; intros c (d & X & _); discriminate|left; injection E as <- <-; auto]. }
   destruct (needs_copy fl f en (cache_addr (r_path x) d)) eqn:NC.
-  - destruct (recheck_from_cache f (r_path x) (cache_addr (r_path x) d) Copy) as [f1 oc1] eqn:RF.
+  - destruct (fixed_P47 fl && negb (obj_exists f (cache_addr (r_path x) d))) eqn:SK.
+    { (* the object is not in the cache: the entry is left as it is; no precondition of the claim holds *)
+      intros E; exists f; apply SAME. right; split; auto. intros c PRE. exfalso.
+      apply andb_true_iff in SK as [_ SK]. apply negb_true_iff in SK.
+      assert (H : holds f (cache_addr (r_path x) d) c).
+      { destruct en as [i|b].
+        - destruct PRE as [(_ & d' & n & RD' & O & I & Bt)|P].
+          + injection RD' as <-. exists i, n. auto.
+          + cbn [needs_copy] in NC. rewrite (private_not_object f (r_path x) c i _ P G) in NC. rewrite andb_false_r in NC. discriminate.
+        - destruct PRE as (d' & RD' & -> & H). injection RD' as <-. exact H. }
+      rewrite (holds_obj_exists _ _ _ H) in SK. discriminate. }
+    destruct (recheck_from_cache f (r_path x) (cache_addr (r_path x) d) Copy) as [f1 oc1] eqn:RF.
     destruct (rfc_frame _ _ _ _ _ _ W RF) as (FR & WS).
     assert (OB1 : objs_bounded f1) by (eapply bounded_frame; eauto).
     destruct oc1.
